@@ -85,7 +85,7 @@ func (h *e8) ownExpr(fn *Func, e ast.Expr, depth int) bool {
 	}
 	switch x := e.(type) {
 	case *ast.SelectorExpr:
-		if x.Sel.Name == "expr" {
+		if canonId(x.Sel.Name) == "expr" {
 			if id, ok := ast.Unparen(x.X).(*ast.Ident); ok {
 				o := info.ObjectOf(id)
 				if fn.Decl != nil && fn.Decl.Recv != nil && len(fn.Decl.Recv.List[0].Names) == 1 && info.ObjectOf(fn.Decl.Recv.List[0].Names[0]) == o {
